@@ -138,6 +138,12 @@ fn main() {
             println!("{} of {} generated documents had problems", bad, n);
             std::process::exit(if bad == 0 { 0 } else { 2 });
         }
+        "c14cases" => {
+            for (label, file) in vh::props::c14::structural_cases() {
+                let r = vh::engine::open::open(&file, false, false, b"");
+                println!("{:50} {}", label, match r { Ok(_) => "loads".to_string(), Err(e) => format!("{:?}", vh::engine::errs::root_cause(&e)).chars().take(90).collect() });
+            }
+        }
         "list" => {
             for p in props::all() {
                 println!("{}", p.id);
